@@ -80,17 +80,17 @@ macro_rules! agg_i32 {
         fn $name() { agg_i32_case::<$l, $has>() }
     };
 }
-// @unit name=agg_i32_len0 props=C12,C02 kind=bounded bound=len=0_Int32 fns=sum,sum_checked,min,max,bit_and,bit_or,bit_xor,aggregate mem=4 timeout=900 tier=thorough was_quick=1 confirmed=0
+// @unit name=agg_i32_len0 props=C12,C02 kind=bounded bound=len=0_Int32 fns=sum,sum_checked,min,max,bit_and,bit_or,bit_xor,aggregate mem=4 timeout=900
 agg_i32!(agg_i32_len0, 0, false);
 // @unit name=agg_i32_len1_n props=C12,C02 kind=bounded bound=len=1_Int32_validity_buffer fns=sum,sum_checked,min,max,bit_and,bit_or,bit_xor,aggregate mem=4 timeout=900 tier=thorough was_quick=1 confirmed=0
 agg_i32!(agg_i32_len1_n, 1, true);
 // @unit name=agg_i32_len3_n props=C12,C02 kind=bounded bound=len=3_Int32_validity_buffer fns=sum,sum_checked,min,max,bit_and,bit_or,bit_xor,aggregate,aggregate_nullable_lanes mem=4 timeout=900 tier=thorough was_quick=1 confirmed=0
 agg_i32!(agg_i32_len3_n, 3, true);
-// @unit name=agg_i32_len3 props=C12,C02 kind=bounded bound=len=3_Int32_no_validity_buffer fns=sum,sum_checked,min,max,bit_and,bit_or,bit_xor,aggregate,aggregate_nonnull_simple mem=4 timeout=900 tier=thorough was_quick=1 confirmed=0
+// @unit name=agg_i32_len3 props=C12,C02 kind=bounded bound=len=3_Int32_no_validity_buffer fns=sum,sum_checked,min,max,bit_and,bit_or,bit_xor,aggregate,aggregate_nonnull_simple mem=4 timeout=900
 agg_i32!(agg_i32_len3, 3, false);
 // @unit name=agg_i32_len5_n props=C12,C02 kind=bounded bound=len=5_Int32_validity_buffer_(4_lanes_+_remainder) fns=sum,sum_checked,min,max,bit_and,bit_or,bit_xor,aggregate,aggregate_nullable_lanes,aggregate_nullable_chunk,reduce_accumulators mem=4 timeout=900 tier=thorough was_quick=1 confirmed=0
 agg_i32!(agg_i32_len5_n, 5, true);
-// @unit name=agg_i32_len5 props=C12,C02 kind=bounded bound=len=5_Int32_no_validity_buffer fns=sum,sum_checked,min,max,bit_and,bit_or,bit_xor,aggregate,aggregate_nonnull_simple mem=4 timeout=900 tier=thorough was_quick=1 confirmed=0
+// @unit name=agg_i32_len5 props=C12,C02 kind=bounded bound=len=5_Int32_no_validity_buffer fns=sum,sum_checked,min,max,bit_and,bit_or,bit_xor,aggregate,aggregate_nonnull_simple mem=4 timeout=900
 agg_i32!(agg_i32_len5, 5, false);
 // @unit name=agg_i32_len9_n props=C12,C02 kind=bounded bound=len=9_Int32_validity_buffer_(2_lane_chunks_+_remainder) fns=sum,sum_checked,min,max,bit_and,bit_or,bit_xor,aggregate,aggregate_nullable_lanes tier=thorough mem=6 timeout=900 confirmed=0
 agg_i32!(agg_i32_len9_n, 9, true);
@@ -129,13 +129,13 @@ macro_rules! agg_f32 {
         fn $name() { agg_f32_case::<$l, $has>() }
     };
 }
-// @unit name=agg_f32_len3_n props=C12,C10,C02 kind=bounded bound=len=3_Float32_validity_buffer fns=min,max,aggregate,aggregate_nullable_lanes mem=4 timeout=900 tier=thorough was_quick=1 confirmed=0
+// @unit name=agg_f32_len3_n props=C12,C10,C02 kind=bounded bound=len=3_Float32_validity_buffer fns=min,max,aggregate,aggregate_nullable_lanes mem=4 timeout=900
 agg_f32!(agg_f32_len3_n, 3, true);
-// @unit name=agg_f32_len5_n props=C12,C10,C02 kind=bounded bound=len=5_Float32_validity_buffer_(4_lanes_+_remainder) fns=min,max,aggregate,aggregate_nullable_lanes mem=4 timeout=900 tier=thorough was_quick=1 confirmed=0
+// @unit name=agg_f32_len5_n props=C12,C10,C02 kind=bounded bound=len=5_Float32_validity_buffer_(4_lanes_+_remainder) fns=min,max,aggregate,aggregate_nullable_lanes mem=4 timeout=900
 agg_f32!(agg_f32_len5_n, 5, true);
-// @unit name=agg_f32_len3 props=C12,C10,C02 kind=bounded bound=len=3_Float32_no_validity_buffer fns=min,max,aggregate,aggregate_nonnull_lanes mem=4 timeout=900 tier=thorough was_quick=1 confirmed=0
+// @unit name=agg_f32_len3 props=C12,C10,C02 kind=bounded bound=len=3_Float32_no_validity_buffer fns=min,max,aggregate,aggregate_nonnull_lanes mem=4 timeout=900
 agg_f32!(agg_f32_len3, 3, false);
-// @unit name=agg_f32_len9 props=C12,C10,C02 kind=bounded bound=len=9_Float32_no_validity_buffer_(8_lanes_+_remainder) fns=min,max,aggregate,aggregate_nonnull_lanes,aggregate_nonnull_chunk,reduce_accumulators tier=thorough mem=6 timeout=900 confirmed=0
+// @unit name=agg_f32_len9 props=C12,C10,C02 kind=bounded bound=len=9_Float32_no_validity_buffer_(8_lanes_+_remainder) fns=min,max,aggregate,aggregate_nonnull_lanes,aggregate_nonnull_chunk,reduce_accumulators tier=thorough mem=6 timeout=900
 agg_f32!(agg_f32_len9, 9, false);
 
 // Contract (C12, C02): on an L-row BooleanArray (bit offset 0; all value bits, validity bits and null
@@ -162,19 +162,19 @@ fn agg_bool_case<const L: usize, const B: usize, const HAS: bool>() {
     kani::cover!(!HAS || (n > 0 && n < L && all));   // a false hidden under a null does not count
     std::mem::forget(arr);
 }
-// @unit name=agg_bool_len5_n props=C12,C02 kind=bounded bound=len=5_Boolean_validity_buffer fns=min_boolean,max_boolean,bool_and,bool_or mem=4 timeout=900 tier=thorough was_quick=1 confirmed=0
+// @unit name=agg_bool_len5_n props=C12,C02 kind=bounded bound=len=5_Boolean_validity_buffer fns=min_boolean,max_boolean,bool_and,bool_or mem=4 timeout=900
 #[kani::proof]
 #[kani::unwind(12)]
 fn agg_bool_len5_n() { agg_bool_case::<5, 1, true>() }
-// @unit name=agg_bool_len5 props=C12,C02 kind=bounded bound=len=5_Boolean_no_validity_buffer fns=min_boolean,max_boolean,bool_and,bool_or mem=4 timeout=900 tier=thorough was_quick=1 confirmed=0
+// @unit name=agg_bool_len5 props=C12,C02 kind=bounded bound=len=5_Boolean_no_validity_buffer fns=min_boolean,max_boolean,bool_and,bool_or mem=4 timeout=900
 #[kani::proof]
 #[kani::unwind(12)]
 fn agg_bool_len5() { agg_bool_case::<5, 1, false>() }
-// @unit name=agg_bool_len70_n props=C12,C02 kind=bounded bound=len=70_Boolean_validity_buffer_(one_64-bit_chunk_+_6_remainder_bits) fns=min_boolean,max_boolean,bool_and,bool_or tier=thorough mem=6 timeout=900 confirmed=0
+// @unit name=agg_bool_len70_n props=C12,C02 kind=bounded bound=len=70_Boolean_validity_buffer_(one_64-bit_chunk_+_6_remainder_bits) fns=min_boolean,max_boolean,bool_and,bool_or tier=thorough mem=6 timeout=900
 #[kani::proof]
 #[kani::unwind(72)]
 fn agg_bool_len70_n() { agg_bool_case::<70, 9, true>() }
-// @unit name=agg_bool_len70 props=C12,C02 kind=bounded bound=len=70_Boolean_no_validity_buffer_(one_64-bit_chunk_+_6_remainder_bits) fns=min_boolean,max_boolean,bool_and,bool_or tier=thorough mem=6 timeout=900 confirmed=0
+// @unit name=agg_bool_len70 props=C12,C02 kind=bounded bound=len=70_Boolean_no_validity_buffer_(one_64-bit_chunk_+_6_remainder_bits) fns=min_boolean,max_boolean,bool_and,bool_or tier=thorough mem=6 timeout=900
 #[kani::proof]
 #[kani::unwind(72)]
 fn agg_bool_len70() { agg_bool_case::<70, 9, false>() }
